@@ -188,6 +188,12 @@ func init() {
 			return nil
 		}, true, false},
 		{"mapcar", "(mapcar (lambda (x) x) %s)", shareNone, 1, func(s []int64) []int64 { return s }, true, false},
+		// the FIRST list a list-building function returns when a multi-list mapping function calls it directly, once per
+		// element: it must not be touched by the calls that follow (results of other calls are independent)
+		{"maprow-list*", "(car (mapcar #'list* %[1]s %[1]s (mapcar (lambda (x) nil) %[1]s)))", shareNone, 2, func(s []int64) []int64 { return []int64{s[0], s[0]} }, true, false},
+		{"maprow-list", "(car (mapcar #'list %[1]s %[1]s))", shareNone, 2, func(s []int64) []int64 { return []int64{s[0], s[0]} }, true, false},
+		{"maprow-cons", "(car (mapcar #'cons %[1]s (mapcar #'list %[1]s)))", shareNone, 2, func(s []int64) []int64 { return []int64{s[0], s[0]} }, false, false},
+		{"maprow-append", "(car (mapcar #'append (mapcar #'list %[1]s) (mapcar #'list %[1]s)))", shareNone, 2, func(s []int64) []int64 { return []int64{s[0], s[0]} }, false, false},
 	}
 	for _, u := range unary {
 		u := u
